@@ -7,6 +7,8 @@
         op ::= (0) enter | (1) exit | (2 v) push | (3) pop | (4) pop1Peek1 | (5 n) dup n
              | (6 n) swap n | (7 n) read back(n) | (8 n v) write back(n) | (9) len
              | (a k) Data() of the frame k levels below the active one
+             | (b x) DUPN | (c x) SWAPN | (d x) EXCHANGE with immediate byte x (EIP-8024: the real
+               opDupN/opSwapN/opExchange run on the frame; x >= 256 is not a byte -> class 5)
         -> one observation per op:
            (0) done | (1 w) | (2 w r) | (3 (w ...)) | (4 z) | (5 class)
            classes: 1 underflow, 2 overflow, 3 no such frame, 4 Go panic, 5 not an opcode
@@ -16,7 +18,8 @@
              | (7) Free; NewMemory
         -> (0) done | (1 x<bytes>) | (2 n) | (3 class)   classes: 1 panic, 2 gas uint overflow,
            3 Copy/GetCopy not covered by a preceding Resize (outside the interpreter's contract, not executed)
-   case (2 ...) / (3 ...)   whole-EVM independence and precompile-cache cases: decided by the
+   case (2 ...) / (3 ...) / (4 ...)   whole-EVM independence, precompile-cache and call-history
+        (fresh vs shared caches/EVM/arena) cases: decided by the
         direct Go oracle only; the model just echoes the case kind. *)
 From GV Require Import Lib.Sx EVM.StackArena EVM.MemoryPool.
 
@@ -35,6 +38,12 @@ Definition dec_small (s : sx) : option Z :=
   match s with
   | SI z => if ((-4096 <=? z) && (z <? 4096))%Z then Some z else None
   | _ => None
+  end.
+
+Definition dec_imm (s : sx) : option N :=
+  match dec_small s with
+  | Some z => if (0 <=? z)%Z then Some (Z.to_N z) else None
+  | None => None
   end.
 
 Definition dec_sop (s : sx) : option sop :=
@@ -58,6 +67,9 @@ Definition dec_sop (s : sx) : option sop :=
       | Some k' => if (0 <=? k')%Z then Some (OData (Z.to_nat k')) else None
       | None => None
       end
+  | SL [SI 11%Z; x] => option_map ODupN (dec_imm x)
+  | SL [SI 12%Z; x] => option_map OSwapN (dec_imm x)
+  | SL [SI 13%Z; x] => option_map OExchange (dec_imm x)
   | _ => None
   end.
 
@@ -136,5 +148,6 @@ Definition C28_run (c : sx) : sx :=
       end
   | SL (SI 2%Z :: _) => SL [SI 2%Z]
   | SL (SI 3%Z :: _) => SL [SI 3%Z]
+  | SL (SI 4%Z :: _) => SL [SI 4%Z]
   | _ => SErr 0
   end.
